@@ -330,6 +330,11 @@ def run(repo, chk):
     # every library overload the typechecker admits has its routine for each concrete storage class: a missing entry is an
     # AssertionError in make_funcs, not a diagnostic (shared with the dispatch table rule C17.D1)
     if chk.__class__.__name__ == 'Check':
+        # the words `defeat` / `try_fp` are only laid out when some function asked for the variable defeat word: every function
+        # that can emit `j [defeat]` must ask (otherwise the output names an undefined label and the assembler rejects a file the
+        # compiler reported as written) - shared with C02.T7
+        from . import c02
+        c02.run(repo, Remap(chk, {'C02.T7': 'C10.X8'}))
         from . import c17
         c17.run(repo, Remap(chk, {'C17.D1': lambda c: 'C10.X2' if c.startswith(('stdlib_funcs', 'library routine', 'abstract_params')) else None}))
     n_assert = sum(1 for v in xf.own.values() for s in v if s.kind == 'assert')
